@@ -60,6 +60,7 @@ CONSTANTS Node,          \* node ids
           FixD11,        \* TRUE = a stale log view reports entries in removed segments as not found (repaired)
           FixD3,         \* TRUE = canChangeConfig requires an own-term commit (repaired)
           FixD14,        \* TRUE = round.begin resets the end time of the previous round (repaired)
+          FixD20,        \* TRUE = a snapshot is labelled with the configuration in force at the commit index (repaired)
           FixD19,        \* TRUE = a locally taken snapshot never replaces a newer installed one (repaired)
           FixD13,        \* TRUE = a follower flushes its log before every successful append reply (repaired)
           FixD5,         \* TRUE = onSnapshotTaken keeps leader.removeLTE >= log.PrevIndex (repaired)
@@ -1093,6 +1094,14 @@ Fsm(n) ==
 
 \* ---- snapshots (fsm.go) ----
 \* raft.go/fsm.go onTakeSnapshot: the goroutine is handed (snapIdx + threshold, configs.Committed) NOW
+\* the configuration in force at index idx: newest configuration entry at or below it, else the snapshot's
+ConfigAt(s, idx) ==
+    LET idxs == {i \in CfgIdxs(s) : i <= idx /\ i > s.snapIdx}
+    IN IF idxs = {} THEN s.snapCfg
+       ELSE LET i == SetMax(idxs) IN [index |-> i, term |-> EntryAt(s, i).t, nodes |-> EntryAt(s, i).c]
+\* (FixD20: a follower's configs.Committed can be ahead of its commit index - it is inferred from the arrival of the next
+\*  configuration entry; the label is then computed from the log)
+SnapLabel(s) == IF FixD20 /\ s.cfgC.index > s.commit THEN ConfigAt(s, s.commit) ELSE s.cfgC
 TakeSnapshotOp(n, thr) ==
     /\ Up(n) /\ ctr.snaps < MaxSnaps
     /\ LET s == node[n]
@@ -1102,10 +1111,10 @@ TakeSnapshotOp(n, thr) ==
                       [kind |-> "takeSnapshot", n |-> n, task |-> task, threshold |-> thr])
           ELSE IF FixD4
                THEN \* repaired: the raft goroutine queues the FSM request itself, in order with the apply requests
-                    Commit([node EXCEPT ![n].snapG = [NoSnapG EXCEPT !.pc = "asked", !.target = s.snapIdx + thr, !.task = task, !.cfg = s.cfgC],
+                    Commit([node EXCEPT ![n].snapG = [NoSnapG EXCEPT !.pc = "asked", !.target = s.snapIdx + thr, !.task = task, !.cfg = SnapLabel(s)],
                                         ![n].fsmQ = Append(@, [kind |-> "snapReq", target |-> s.snapIdx + thr])], rpcs, orph,
                            [kind |-> "takeSnapshot", n |-> n, task |-> task, threshold |-> thr])
-               ELSE Commit([node EXCEPT ![n].snapG = [NoSnapG EXCEPT !.pc = "start", !.target = s.snapIdx + thr, !.task = task, !.cfg = s.cfgC]], rpcs, orph,
+               ELSE Commit([node EXCEPT ![n].snapG = [NoSnapG EXCEPT !.pc = "start", !.target = s.snapIdx + thr, !.task = task, !.cfg = SnapLabel(s)]], rpcs, orph,
                            [kind |-> "takeSnapshot", n |-> n, task |-> task, threshold |-> thr])
     /\ ctr' = [ctr EXCEPT !.snaps = @ + 1]
 \* doTakeSnapshot: `fsm.ch <- req`
